@@ -346,6 +346,64 @@ fn zero_arg_cells(ctx: &vh::explore::Ctx, stats: &mut Stats) {
     }
 }
 
+/// Many mock-induced panics on one mock (more than any fixed small number): every one of them is
+/// in the verification message, in the order in which they were raised.
+fn many_errors_cells(ctx: &vh::explore::Ctx, stats: &mut Stats) {
+    use unimock::*;
+    for n in [9usize, 12, 40] {
+        for routing in 0..3u8 {
+            let cell = format!("many-errors/{n}/{}", ["original", "clone", "clone-on-thread"][routing as usize]);
+            if routing == 0 && ctx.variant != "std" {
+                continue;
+            }
+            stats.add("traces_validated_against_impl", 1);
+            stats.add("transitions", n as u64);
+            stats.add("many_errors_cells", 1);
+            let original = Unimock::new(AMock::a.each_call(matching!(0)).returns(1u32));
+            let clone = original.clone();
+            let mut texts = vec![];
+            for k in 0..n {
+                let x = (k + 1) as u8;
+                let r = match routing {
+                    0 => catch(|| <Unimock as A>::a(&original, x)),
+                    1 => catch(|| <Unimock as A>::a(&clone, x)),
+                    _ => std::thread::scope(|s| s.spawn(|| <Unimock as A>::a(&clone, x)).join()).map_err(payload_to_string),
+                };
+                match r {
+                    Err(msg) if msg.starts_with(&format!("A::a({x}): No matching call patterns")) => texts.push(msg),
+                    other => {
+                        ctx.violation(&cell, &format!("{cell}: call a({x}) gave {other:?}"), vh::json::J::obj().set("many_errors_cell", cell.as_str()));
+                        return;
+                    }
+                }
+            }
+            drop(clone);
+            let verdict = verify_by(original, VerifyHow::Drop);
+            let ok = match &verdict {
+                Verdict::Failed(lines) => {
+                    let text = lines.join("\n");
+                    let mut from = 0;
+                    texts.iter().all(|t| match text[from..].find(t.trim_end()) {
+                        Some(pos) => {
+                            from += pos + t.trim_end().len();
+                            true
+                        }
+                        None => false,
+                    })
+                }
+                Verdict::Silent => false,
+            };
+            if !ok {
+                ctx.violation(
+                    &cell,
+                    &format!("{cell}: {n} mock-induced panics were raised, the verification message does not contain all of them in order: {verdict:?}"),
+                    vh::json::J::obj().set("many_errors_cell", cell.as_str()),
+                );
+            }
+        }
+    }
+}
+
 fn main() {
     silence_panics();
     set_user_panic_arg(Some(2));
@@ -438,6 +496,33 @@ fn main() {
     for p in parts {
         stats.merge(p);
     }
+    // the same depth-2 space on a mock configured with no_verify_in_drop() from the start and
+    // verified by an explicit verify(): the errors are remembered all the same
+    let opts_nv = RunOpts {
+        no_verify_in_drop_first: true,
+        verify: Some(VerifyHow::Verify),
+        ..opts
+    };
+    let nv_cases: Vec<Case> = cases
+        .iter()
+        .take(1)
+        .map(|c| Case {
+            label: format!("no_verify_in_drop-first/{}", c.label),
+            config: c.config.clone(),
+            histories: HistGen::All {
+                alphabet: alphabet(&all_routes),
+                depth: 2,
+            },
+        })
+        .collect();
+    let parts = par_map(&nv_cases, |_, case| {
+        set_user_panic_arg(Some(2));
+        explore_case(ctx, case, opts_nv, &verdict_extra)
+    });
+    for p in parts {
+        stats.merge(p);
+    }
+    many_errors_cells(ctx, &mut stats);
     guard(&stats, 12, true);
     let s_traces = stats.get("traces_validated_against_impl");
 
